@@ -170,6 +170,25 @@ def main():
         return r
     Parallel._check_children = cc
 
+    if spec.get("prelude"):
+        # an earlier, unrelated pool of the same process (annet runs several: fetch, generate, deploy ...) with callbacks of its own that
+        # only know its own ids; whatever it registered must stay with it
+        pre_ids = [900 + i for i in range(spec["prelude"])]
+        names = {i: "pre%d" % i for i in pre_ids}
+
+        def pre_thread_cb(par, tr):
+            tr.result = [names[tr.device_id]] if tr.exc is None else None
+            return tr
+
+        def pre_cb(par, tr):
+            names[tr.device_id]
+            return tr
+        pp = Parallel(lambda i: ["x", i]).tune(parallel=spec.get("prelude_pool", 2), max_tasks=max_tasks)
+        pp.add_callback(pre_thread_cb, in_thread=True)
+        pp.add_callback(pre_cb)
+        ok_, fail_ = pp.run(pre_ids)
+        log("prelude", ok=sorted(ok_), failed=sorted(fail_), payloads=sorted(map(str, ok_.values())))
+
     points = []
     if spec.get("inject"):
         points = install_delays(spec["inject"]["seed"], spec["inject"]["max_ms"], spec["inject"]["prob"], spec["inject"].get("fixed"))
